@@ -18,6 +18,7 @@ import (
 	"bytes"
 	"fmt"
 	"math"
+	"sort"
 	"strings"
 
 	"github.com/go-enry/go-enry/v2"
@@ -231,11 +232,8 @@ func (p *contentProvider) scoreLineBM25(ms []*candidateMatch, lineNumber int) (f
 	lineLength := nl.lineStart(lineNumber+1) - nl.lineStart(lineNumber)
 	L := float64(lineLength) / 100.0
 
-	score := 0.0
 	tfs := p.calculateTermFrequency(ms, false) // ignore file priority, since we're just scoring within a single file
-	for _, f := range tfs {
-		score += tfScore(k, b, L, f)
-	}
+	score := sumTermFrequencyScores(tfs, k, b, L)
 
 	// Check if any index comes from a symbol match tree, and if so hydrate in symbol information
 	var symbolInfo []*zoekt.Symbol
@@ -256,6 +254,24 @@ func (p *contentProvider) scoreLineBM25(ms []*candidateMatch, lineNumber int) (f
 
 	score = boostScore(score, ms)
 	return score, symbolInfo
+}
+
+// sumTermFrequencyScores adds up the BM25 scores of the terms in a fixed order
+// (ascending frequency). Floating-point addition is not associative and the
+// iteration order of a map is random: summing while ranging over the map made
+// identical searches return different scores.
+func sumTermFrequencyScores(tf map[string]int, k float64, b float64, L float64) float64 {
+	freqs := make([]int, 0, len(tf))
+	for _, f := range tf {
+		freqs = append(freqs, f)
+	}
+	sort.Ints(freqs)
+
+	score := 0.0
+	for _, f := range freqs {
+		score += tfScore(k, b, L, f)
+	}
+	return score
 }
 
 // tfScore is the term frequency score for BM25.
@@ -396,11 +412,10 @@ func (d *indexData) scoreFileBM25(fileMatch *zoekt.FileMatch, doc uint32, cands 
 
 	L := fileLength / averageFileLength
 
-	bm25Score := 0.0
+	bm25Score := sumTermFrequencyScores(tf, k, b, L)
 	sumTF := 0 // Just for debugging
 	for _, f := range tf {
 		sumTF += f
-		bm25Score += tfScore(k, b, L, f)
 	}
 
 	score := boostScore(bm25Score, cands)
